@@ -38,11 +38,12 @@ type FuncContract struct {
 	Props    []string
 	Arith    string
 	NoPanic  bool
+	NoPanicKinds map[string]bool // empty = every kind; else only these kinds (typeassert, panic, index, ...) are obligations
 	Trusted  bool // contract is assumed (library / abstract interface method / not verified)
 	Why      string
 	Requires []*Clause
 	Ensures  []*Clause
-	Asserts  []*Clause // `assert at call N <fn>: expr` not yet
+	Asserts  []*AssertAt // `assert[label] at "source text" #k :: expr`
 	Modifies []ModItem
 	HasMod   bool
 	Loops    map[int]*LoopSpec
@@ -106,7 +107,7 @@ type ContractFile struct {
 }
 
 var clauseKw = map[string]bool{"func": true, "type": true, "spec": true, "lemma": true, "props": true, "arith": true,
-	"nopanic": true, "requires": true, "ensures": true, "modifies": true, "loop": true, "let": true, "trusted": true, "assumes": true,
+	"nopanic": true, "assert": true, "assume": true, "requires": true, "ensures": true, "modifies": true, "loop": true, "let": true, "trusted": true, "assumes": true,
 	"invariant": true, "note": true, "package": true, "frame": true, "hyp": true, "concl": true, "params": true, "call": true, "immutable": true, "package_invariant": true}
 
 // logical lines: a //@ line whose first word is not a keyword continues the previous one.
@@ -313,6 +314,12 @@ func ParseContractFile(path, pkgPath string) (*ContractFile, error) {
 				return nil, fail(l, "nopanic outside func")
 			}
 			cur.NoPanic = true
+			if strings.TrimSpace(rest) != "" {
+				cur.NoPanicKinds = map[string]bool{}
+				for _, k := range strings.Split(rest, ",") {
+					cur.NoPanicKinds[strings.TrimSpace(k)] = true
+				}
+			}
 		case "trusted":
 			if cur == nil {
 				return nil, fail(l, "trusted outside func")
@@ -354,6 +361,20 @@ func ParseContractFile(path, pkgPath string) (*ContractFile, error) {
 				m[d.Name] = d.E
 			}
 			cur.Lets = append(cur.Lets, letDef{strings.TrimSpace(rest[:as]), substExpr(e, m)})
+		case "assert", "assume":
+			if cur == nil {
+				return nil, fail(l, "assert outside func")
+			}
+			anchor, occ, src, perr := parseAssertAt(rest)
+			if perr != nil {
+				return nil, fail(l, "%v", perr)
+			}
+			c, err := mk(l, kw, label, src)
+			if err != nil {
+				return nil, err
+			}
+			c.E = substExpr(c.E, letMap(cur))
+			cur.Asserts = append(cur.Asserts, &AssertAt{Anchor: anchor, Occ: occ, C: c, Assume: kw == "assume"})
 		case "requires", "ensures", "assumes":
 			if cur == nil {
 				return nil, fail(l, "%s outside func", kw)
